@@ -44,6 +44,8 @@ pub enum WEv {
     Intr,
     /// marker at the head of a script (`v`): the writer reports `is_write_vectored()`
     Gather,
+    /// the peer takes nothing more, ever, and does not go away
+    Never,
 }
 
 #[derive(Default)]
@@ -200,6 +202,7 @@ impl AsyncWrite for ScriptStream {
                 Poll::Ready(Err(std::io::Error::new(std::io::ErrorKind::Interrupted, "interrupted")))
             }
             Some(WEv::Sleep(_)) | Some(WEv::Gather) => unreachable!(),
+            Some(WEv::Never) => Poll::Pending,
             Some(WEv::Accept(k)) => {
                 let n = (*k).min(buf.len());
                 me.w.pop_front();
@@ -646,6 +649,15 @@ pub fn serve_big(st: &State, t: &mut Toks) -> PResult<String> {
 
 /// SV <dict> <rscript> <wscript> <nanswers> (A <history> | F)*: the per-connection loop
 pub fn serve(st: &State, t: &mut Toks) -> PResult<String> {
+    serve_with(st, t, 0)
+}
+
+/// SVP: as SV, while 70 other connections of the process are stuck writing their answers to peers that have stopped reading
+pub fn serve_parked(st: &State, t: &mut Toks) -> PResult<String> {
+    serve_with(st, t, 70)
+}
+
+fn serve_with(st: &State, t: &mut Toks, parked: usize) -> PResult<String> {
     let dictname = t.next()?.to_string();
     let dict = st.dicts.get(&dictname).ok_or_else(|| "unknown dict".to_string())?.clone();
     let rs = parse_rscript(t)?;
@@ -709,7 +721,33 @@ pub fn serve(st: &State, t: &mut Toks) -> PResult<String> {
             }
         }
     };
-    let res = run_to_end(async move { DiameterServer::verif_serve_stream(stream, handler, dict).await });
+    let res = run_to_end(async move {
+        let mut others = Vec::new();
+        for j in 0..parked {
+            let d = Arc::clone(&dict);
+            let d3 = Arc::clone(&dict);
+            // a request of 20 octets (header only), and a peer that takes nothing of the answer, ever
+            let first = vec![1u8, 0, 0, 20, 0x80, 0, 1, 16, 0, 0, 0, 4, 0, 0, 0, j as u8, 0, 0, 0, 2];
+            let script: VecDeque<REv> = vec![REv::Chunk(first), REv::Never].into();
+            let wscript: VecDeque<WEv> = vec![WEv::Never].into();
+            let other = ScriptStream::new(script, wscript, Arc::new(Mutex::new(Shared::default())));
+            others.push(tokio::spawn(async move {
+                let h = move |req: DiameterMessage| {
+                    let d = Arc::clone(&d3);
+                    async move { Ok::<DiameterMessage, diameter::error::Error>(DiameterMessage::new(req.get_command_code(), req.get_application_id(), 0, req.get_hop_by_hop_id(), req.get_end_to_end_id(), d)) }
+                };
+                let _ = DiameterServer::verif_serve_stream(other, h, d).await;
+            }));
+        }
+        for _ in 0..6 * parked.min(1) {
+            tokio::task::yield_now().await;
+        }
+        let r = DiameterServer::verif_serve_stream(stream, handler, dict).await;
+        for h in others {
+            h.abort();
+        }
+        r
+    });
     let mut o = String::from("SV ");
     match res {
         Ok(Some(Ok(()))) => o.push_str("closed"),
